@@ -2264,8 +2264,6 @@ def _augadd_display_to_append(fn):
         return isinstance(v, (ast.List, ast.ListComp)) or (isinstance(v, ast.Call) and isinstance(v.func, ast.Name) and v.func.id == "list")
 
     lists = {k for k, vs in binds.items() if k not in params and vs and all(v is not None and is_list(v) for v in vs)}
-    if not lists:
-        return
 
     def block(stmts):
         out = []
@@ -2280,6 +2278,14 @@ def _augadd_display_to_append(fn):
             if isinstance(st, ast.Try):
                 for hd in st.handlers:
                     hd.body = block(hd.body)
+            # X.extend([e1, e2])  ->  X.append(e1) ; X.append(e2)    (X a name or plain attribute chain; only lists and deques have extend)
+            if isinstance(st, ast.Expr) and isinstance(st.value, ast.Call) and isinstance(st.value.func, ast.Attribute) and st.value.func.attr == "extend" and not st.value.keywords \
+                    and len(st.value.args) == 1 and isinstance(st.value.args[0], ast.List) and st.value.args[0].elts and not any(isinstance(e, ast.Starred) for e in st.value.args[0].elts) \
+                    and _plain_chain_or_name(st.value.func.value):
+                for e in st.value.args[0].elts:
+                    call = ast.Call(func=ast.Attribute(value=copy.deepcopy(st.value.func.value), attr="append", ctx=ast.Load()), args=[e], keywords=[])
+                    out.append(ast.copy_location(ast.Expr(value=call), st))
+                continue
             if isinstance(st, ast.AugAssign) and isinstance(st.op, ast.Add) and isinstance(st.target, ast.Name) and st.target.id in lists and isinstance(st.value, ast.List) \
                     and st.value.elts and not any(isinstance(e, ast.Starred) for e in st.value.elts):
                 for e in st.value.elts:
@@ -2290,6 +2296,42 @@ def _augadd_display_to_append(fn):
         return out
 
     fn.body = block(fn.body)
+
+
+def _inline_operator_getters(tree, counts):
+    """N33  _g = attrgetter("a")  (module level, bound once)  and  _g(e)   ->   e.a          likewise itemgetter(k): e[k]
+    (one constant argument, an attribute name without dots)."""
+    getters: Dict[str, Tuple[str, object]] = {}
+    for st in tree.body:
+        if isinstance(st, ast.Assign) and len(st.targets) == 1 and isinstance(st.targets[0], ast.Name) and counts.get(st.targets[0].id) == 1 and isinstance(st.value, ast.Call) \
+                and not st.value.keywords and len(st.value.args) == 1 and isinstance(st.value.args[0], ast.Constant):
+            f = st.value.func
+            fn = f.id if isinstance(f, ast.Name) else f.attr if isinstance(f, ast.Attribute) and isinstance(f.value, ast.Name) and f.value.id == "operator" else None
+            v = st.value.args[0].value
+            if fn == "attrgetter" and isinstance(v, str) and v.isidentifier():
+                getters[st.targets[0].id] = ("attr", v)
+            elif fn == "itemgetter" and isinstance(v, (int, str)) and not isinstance(v, bool):
+                getters[st.targets[0].id] = ("item", v)
+    if not getters:
+        return
+    for n in ast.walk(tree):
+        if isinstance(n, ast.Name) and n.id in getters and isinstance(n.ctx, ast.Store):
+            owner_is_def = any(isinstance(st, ast.Assign) and st.targets[0] is n for st in tree.body if isinstance(st, ast.Assign) and len(st.targets) == 1)
+            if not owner_is_def:
+                getters.pop(n.id, None)
+
+    class R(ast.NodeTransformer):
+        def visit_Call(self, node):
+            self.generic_visit(node)
+            if isinstance(node.func, ast.Name) and node.func.id in getters and len(node.args) == 1 and not node.keywords and not isinstance(node.args[0], ast.Starred):
+                kind, v = getters[node.func.id]
+                if kind == "attr":
+                    return ast.copy_location(ast.Attribute(value=node.args[0], attr=v, ctx=ast.Load()), node)
+                return ast.copy_location(ast.Subscript(value=node.args[0], slice=ast.Constant(value=v), ctx=ast.Load()), node)
+            return node
+
+    for k_, st in enumerate(tree.body):
+        tree.body[k_] = R().visit(st)
 
 
 def _local_annotations_to_assignments(tree):
@@ -2528,6 +2570,7 @@ def normalise_module(module_name: str, tree: ast.Module, multiply_defined: froze
                            and isinstance(st.value, (ast.Tuple, ast.List)) and st.value.elts and all(isinstance(e, ast.Constant) for e in st.value.elts)}
     _hoist_named_expressions(tree)
     tree = _MapToGenerator().visit(tree)
+    _inline_operator_getters(tree, counts)
     if known_names():
         _inline_private_literals(tree, counts, set(known_names().get(module_name, [])))
     tree.body = _split_conditional_tuple_assign(tree.body)
